@@ -500,6 +500,53 @@ Definition unit_above (tp : list tok) : Z :=
   if has FHour ef then us_day else if has FMinute ef then us_hour else us_minute.
 Definition roll (u s c : Z) : Z := if c <? s then c + u else c.
 
+(* the exact class of the partial-end clause: below the unit by which the end is rolled forward (the coarsest
+   spelt end field and everything finer) the end spells every field the start spells, and e has nothing in
+   the fields that are not spelt *)
+Definition sub_unit_fields (tp : list tok) : list tfield :=
+  let ef := end_fields tp in
+  if has FHour ef then [FHour; FMinute; FSecond; FMilli]
+  else if has FMinute ef then [FMinute; FSecond; FMilli] else [FSecond; FMilli].
+Definition end_exact (tp : list tok) (de : dt) : bool :=
+  let sf := start_fields tp in let ef := end_fields tp in
+  forallb (fun f => (negb (has f sf) || has f ef) && (has f ef || (fval f de =? 0))) (sub_unit_fields tp)
+  && (micro de mod 1000 =? 0).
+
+(* ------------------------------------------------------------------ the names a template denotes *)
+
+Definition no_nl (v : str) : bool := forallb (fun a => negb (is_nl a)) v.
+Definition key_of (t : tok) : option key :=
+  match t with T e f => Some (KT e f) | U n _ => Some (KU n) | _ => None end.
+(* the language of one placeholder's regex: \d{n}, .+?, a|b|c *)
+Definition in_lang (t : tok) (v : str) : bool :=
+  match t with
+  | T _ f => Nat.eqb (List.length v) (width f) && forallb is_digit v
+  | U _ (Some UAny) => negb (match v with [] => true | _ => false end) && no_nl v
+  | U _ (Some (UAlts vs)) => existsb (str_eqb v) vs
+  | U _ (Some (UDigits n)) => Nat.eqb (List.length v) n && forallb is_digit v
+  | _ => false
+  end.
+(* the text of the template when its placeholder occurrences are replaced, in order, by the words b (each under
+   the occurrence's own key and in the language of its regex) and its `*` by the newline-free words ws *)
+Fixpoint assemble (tp : list tok) (b : list (key * str)) (ws : list str) : option str :=
+  match tp with
+  | [] => match b, ws with [], [] => Some [] | _, _ => None end
+  | Lit l :: tp' => option_map (app l) (assemble tp' b ws)
+  | Star :: tp' => match ws with
+                   | w :: ws' => if no_nl w then option_map (app w) (assemble tp' b ws') else None
+                   | [] => None
+                   end
+  | t :: tp' => match b with
+                | (k, v) :: b' =>
+                    if match key_of t with Some k' => key_eqb k k' | None => false end && in_lang t v
+                    then option_map (app v) (assemble tp' b' ws) else None
+                | [] => None
+                end
+  end.
+(* n is an instance of the template with the occurrence strings b (`$` also matches before one final newline) *)
+Definition is_instance (tp : list tok) (b : list (key * str)) (n : str) : Prop :=
+  exists ws n0, assemble tp b ws = Some n0 /\ (n = n0 \/ n = n0 ++ [nl]).
+
 (* ------------------------------------------------------------------ entry points for the harness *)
 
 Definition out_binds (b : list (key * str)) : list (string * string) :=
@@ -529,3 +576,15 @@ Definition hyps (tp : list tok) (s e : Z) (fill : list (string * string)) : bool
 (* the end the property promises in the partial case (None when not constructible) *)
 Definition promised_partial (tp : list tok) (s e : Z) : option Z :=
   option_map (roll (unit_above tp) s) (complete tp (fields s) (fields e)).
+(* the hypotheses of end_partial_exact: sub-day end kind, exact class, 0 <= e - s < unit *)
+Definition exact_hyp (tp : list tok) (s e : Z) : bool :=
+  end_partial tp && end_exact tp (fields e) && (0 <=? e - s) && (e - s <? unit_above tp).
+(* a certificate that n is an instance of the template: the occurrence strings b and the `*` words ws found by the
+   harness are checked by `assemble`; returned with the dictionary they stand for *)
+Definition run_instance (tp : list tok) (b : list (key * string)) (ws : list string) (n : string)
+  : bool * list (string * string) :=
+  let b' := map (fun kv => (fst kv, s2l (snd kv))) b in
+  (match assemble tp b' (map s2l ws) with
+   | Some n0 => str_eqb (s2l n) n0 || str_eqb (s2l n) (n0 ++ [nl])
+   | None => false
+   end, out_binds (first_only b')).
